@@ -12,8 +12,8 @@ ones, and every observation the replay judged broken) are written as call record
 (GraphOptTrace.tla; value equality is decided in TLA+ against Denote)."""
 from __future__ import annotations
 
-import math
 import random
+import re
 
 from .. import herbrand as H
 from ..core import TLA, MachineryError
@@ -478,6 +478,37 @@ def _first_clause(text):
     return found or ["Rejected"]
 
 
+_RE_OUT = re.compile(r'^/\\ out = (".*")\s*$')
+
+
+def read_cases(dump, min_nodes, cap, rng):
+    """Stream the TLC state dump: one JSON case per state in variable `out`; keep graphs with at least
+    min_nodes nodes (smaller ones belong to another configuration), reservoir-sample `cap` of them
+    (cap = 0: keep all).  Returns (cases sorted canonically, number of eligible cases seen)."""
+    import json
+    import os
+    keep, seen = [], 0
+    with open(dump) as f:
+        for line in f:
+            m = _RE_OUT.match(line)
+            if not m:
+                continue
+            text = json.loads(m.group(1))
+            if not text:
+                continue
+            # cheap pre-filter on the number of nodes before parsing the whole case
+            c = json.loads(text)
+            if not c["g"] or len(c["g"]) < min_nodes:
+                continue
+            seen += 1
+            keep.append(text)
+    os.remove(dump)
+    keep.sort()
+    if cap and len(keep) > cap:
+        keep = rng.sample(keep, cap)
+    return [json.loads(t) for t in keep], seen
+
+
 def replay_cases(ctx, cases, subsets_per_graph, rich, keep=3000, report=True):
     """Run all variants of the given TLC cases; returns (sampled clean triples, broken triples)."""
     jobs = []
@@ -526,8 +557,8 @@ def validate_records(ctx, triples, label, report=True):
     spec, cfg = ctx.model(ctx.spec("graph", "GraphOptTrace.tla"), {})
     recs = [record_of("r%d" % i, item, o) for i, (item, o, _c) in enumerate(triples)]
     rejected = {}
-    for lo in range(0, len(recs), 10000):
-        rejected.update(ctx.tlc_validate(spec, recs[lo:lo + 10000], cfg, label=label, timeout=1800, **TLC_OPTS))
+    for lo in range(0, len(recs), 30000):
+        rejected.update(ctx.tlc_validate(spec, recs[lo:lo + 30000], cfg, label=label, timeout=1800, **TLC_OPTS))
     out = {}
     for i, (item, o, clauses) in enumerate(triples):
         rid = "r%d" % i
@@ -567,23 +598,24 @@ def run(ctx):
     sampled = False
     # (N, argument wraps, last-level sample (0 = all), requested subsets per graph (0 = all), cap on graphs)
     confs = ctx.pick([(3, '{"list", "call"}', 0, 2, 0), (4, "{}", 0, 1, 0)],
-                     [(3, '{"list", "call"}', 0, 0, 0), (4, '{"list", "call"}', 0, 2, 40000), (5, "{}", 4, 1, 0)])
+                     [(3, '{"list", "call"}', 0, 0, 0), (4, '{"list"}', 0, 2, 20000), (5, "{}", 3, 1, 0)])
+    import dask.core  # noqa: F401 - imported before the worker processes are forked
+    import dask.optimization  # noqa: F401
     xval = []
     for n, wraps, last, per, cap in confs:
         spec, cfg = ctx.model(ctx.spec("graph", "GraphOptMC.tla"), {"N": n, "Wraps": TLA(wraps), "Last": last}, invariants=INVS)
-        cases, _ = ctx.tlc_cases(spec, cfg, label="design+cases:N=%d,wraps=%s,last=%d" % (n, wraps, last), timeout=3000,
-                                 seed=ctx.seed + 1, **TLC_OPTS)
-        cases = [c for c in cases if c["g"] and len(c["g"]) >= (1 if n <= 3 else n)]
-        cases.sort(key=lambda c: H._sortkey(c["g"]))
-        total += len(cases)
-        if cap and len(cases) > cap:
-            cases = ctx.rng.sample(cases, cap)
-            sampled = True
-        if per or last:
+        r = ctx.tlc(spec, cfg, dump=True, label="design+cases:N=%d,wraps=%s,last=%d" % (n, wraps, last), timeout=3000,
+                    seed=ctx.seed + 1, **TLC_OPTS)
+        cases, seen = read_cases(r.dump, n if n > 3 else 1, cap, ctx.rng)
+        if not cases:
+            raise MachineryError("no cases exported by GraphOptMC (N=%d)" % n)
+        total += seen
+        if per or last or seen > len(cases):
             sampled = True
         kept, broken = replay_cases(ctx, cases, per, rich, keep=ctx.pick(5000, 15000))
         ctx.sample({"graph": cases[0]["g"], "denote": cases[0]["den"], "requests": cases[0]["req"][:2]})
         xval += kept + broken
+        del cases
     # code -> spec: random larger graphs, decided by TLC alone
     items = random_items(ctx, ctx.pick(12000, 60000), ctx.pick([5, 6, 7, 8, 9], [5, 6, 7, 8, 9, 10, 12, 14]))
     rnd = []
@@ -593,8 +625,7 @@ def run(ctx):
             continue
         ctx.count(_digest(item), nontrivial(item["g"], item["keys"]))
         rnd.append((item, o, None))
-    validate_records(ctx, xval, "trace-validation:enumerated-sample")
-    validate_records(ctx, rnd, "trace-validation:random-graphs")
+    validate_records(ctx, xval + rnd, "trace-validation:enumerated-sample+random-graphs")
     if rnd:
         ctx.sample({"recorded_call": {k: rnd[0][0][k] for k in ("op", "p", "form", "style", "keys", "g")}})
     ctx.exhaustive = not sampled
